@@ -43,6 +43,20 @@ type Targets struct {
 	Seen  []*Seen
 	// Default is used for hosts without a spec (nil = connection refused)
 	Default *TargetSpec
+	holdNext map[string]chan struct{}
+}
+
+// HoldNext parks the next request to host until the returned channel is closed
+// (or the request's context ends): that one scrape is "in flight".
+func (t *Targets) HoldNext(host string) chan struct{} {
+	t.mu.Lock()
+	defer t.mu.Unlock()
+	if t.holdNext == nil {
+		t.holdNext = map[string]chan struct{}{}
+	}
+	ch := make(chan struct{})
+	t.holdNext[host] = ch
+	return ch
 }
 
 func NewTargets() *Targets { return &Targets{Specs: map[string]*TargetSpec{}} }
@@ -124,7 +138,16 @@ func (t *Targets) RoundTrip(req *http.Request) (*http.Response, error) {
 	}
 	t.Seen = append(t.Seen, &Seen{URL: req.URL.String(), Host: req.URL.Host, Path: req.URL.Path, Query: req.URL.RawQuery,
 		Header: req.Header.Clone(), At: time.Now(), Spec: spec})
+	hold := t.holdNext[req.URL.Host]
+	delete(t.holdNext, req.URL.Host)
 	t.mu.Unlock()
+	if hold != nil {
+		select {
+		case <-hold:
+		case <-req.Context().Done():
+			return nil, req.Context().Err()
+		}
+	}
 	if spec != nil && spec.Hold != nil {
 		select {
 		case <-spec.Hold:
